@@ -53,7 +53,7 @@ def _worm_gear_and_wheel_data_row(pressure_angle: Angle) -> pd.Series:
         WORM_GEAR_AND_WHEEL_DATA.index,
         WORM_GEAR_AND_WHEEL_AVAILABLE_PRESSURE_ANGLES
     ):
-        if pressure_angle == available_pressure_angle:
+        if available_pressure_angle == pressure_angle:
             return WORM_GEAR_AND_WHEEL_DATA.loc[index]
     raise KeyError(pressure_angle)
 
